@@ -476,16 +476,23 @@ async fn on_commitment_revocation(
                 }
                 Err(e) => match e {
                     AddAppointmentError::RequestError(e) => {
+                        // Either the tower cannot be reached or what we got back is not a proper response (e.g. an error
+                        // page from something in between). In both cases the appointment has to be sent again later on.
                         if e.is_connection() {
                             log::warn!(
                                 "{tower_id} cannot be reached. Adding {} to pending appointments",
                                 appointment.locator
                             );
-                            let mut state = plugin.state().lock().unwrap();
-                            state.set_tower_status(tower_id, TowerStatus::TemporaryUnreachable);
-                            state.add_pending_appointment(tower_id, &appointment);
-                            send_to_retrier(&state, tower_id, appointment.locator);
+                        } else {
+                            log::warn!(
+                                "Unexpected response from {tower_id} ({e:?}). Adding {} to pending appointments",
+                                appointment.locator
+                            );
                         }
+                        let mut state = plugin.state().lock().unwrap();
+                        state.set_tower_status(tower_id, TowerStatus::TemporaryUnreachable);
+                        state.add_pending_appointment(tower_id, &appointment);
+                        send_to_retrier(&state, tower_id, appointment.locator);
                     }
                     AddAppointmentError::ApiError(e) => match e.error_code {
                         errors::INVALID_SIGNATURE_OR_SUBSCRIPTION_ERROR => {
